@@ -75,3 +75,21 @@ impl Housekeeper {
         ts.expect("Timestamp overflow")
     }
 }
+
+// Verification hooks.
+#[cfg(mini_moka_verif)]
+impl Housekeeper {
+    /// Re-bases the periodic-sync deadline on `now` (as `default()` does with the
+    /// wall clock) so that a cache with a mock clock does not depend on real time.
+    pub(crate) fn verif_reset(&self, now: Instant) {
+        self.sync_after.set_instant(Self::sync_after(now));
+    }
+
+    /// (is_sync_running, sync_after)
+    pub(crate) fn verif_state(&self) -> (bool, Option<Instant>) {
+        (
+            self.is_sync_running.load(Ordering::SeqCst),
+            self.sync_after.instant(),
+        )
+    }
+}
